@@ -185,7 +185,7 @@ func TestC13(t *testing.T) {
 	guard.HangTime = 120 * time.Second
 	r := vf.NewRec("C13")
 	defer r.Finish(t)
-	guard.StartWatchdog(*vf.Out, "C13")
+	guard.StartWatchdog(*vf.Out, vf.Label("C13"))
 	if !raceEnabled {
 		r.Note("built without -race: only the byte comparison is checked in this run")
 	}
